@@ -145,8 +145,7 @@ func VerifC14_TimeSeries() {
 	step := vrt.I32("step")
 	vrt.Assume(step > 0)
 	span := int64(n) * int64(step)
-	vrt.Assume(int64(from)+span <= 0xffffffff)
-	vrt.Assume(span <= 0x7fffffff)
+	vrt.Assume(int64(from)+span <= 0xffffffff) // spans of 2^31 s and more are included
 	until := from + uint32(span)
 	vals := make([]Value, n)
 	for i := range vals {
